@@ -129,7 +129,7 @@ def run_once(job, func, args, specns):
             try:
                 ok = ceval(e, env2, old_env, specns)
             except Exception as ex:
-                ok, e = False, e + '   [evaluation error %r]' % (ex,)
+                return 'error', {'clause': e, 'error': 'contract evaluation failed: %r' % (ex,)}
             if not ok:
                 tok = getattr(raised, 'token', None)
                 return 'violates', {'clause': e, 'observed': 'raised %r token=%s' % (raised, describe(tok))}
@@ -144,7 +144,8 @@ def run_once(job, func, args, specns):
         try:
             ok = ceval(e, env2, old_env, specns)
         except Exception as ex:
-            ok, e = False, e + '   [evaluation error %r]' % (ex,)
+            # a contract that cannot be evaluated concretely says nothing about the code
+            return 'error', {'clause': e, 'error': 'contract evaluation failed: %r' % (ex,)}
         if not ok:
             return 'violates', {'clause': e, 'observed': 'result = %s' % describe(result)}
     return 'holds', {}
